@@ -119,7 +119,7 @@ impl Scenario for C13 {
                 0 => Op::new("add_t", &[t, *rng.pick(&[500.0, 300.0, 5.0, 1e6, 500.0, f64::NAN, f64::INFINITY, 0.0, -1.0]), rng.below(2) as f64, *rng.pick(&[4.0, 4.0, 3.0, 7.0])]),
                 1 => Op::new("add_d", &[t, *rng.pick(&[1.0, 2.0, 0.5, 1.0, 0.0, 0.25, 0.25000000000000017, f64::NAN, f64::INFINITY, 2.0, 1.0]), if rng.chance(1, 4) { 0.0 } else { 1.0 }]),
                 2 => Op::new("add_e", &[t, rng.below(2) as f64, *rng.pick(&[1.0, 1.0, 2.0, 0.0, 0.25, 0.25000000000000017, f64::NAN, f64::INFINITY, 2.0, 1.0])]),
-                _ => Op::new("add_s", &[t, rng.below(4) as f64, *rng.pick(&[100.0, 50.0, 100.0, 120.0, -5.0]), *rng.pick(&[0.0, 1.0, 0.0, 1.0, -1.0, 2.0, -2.0])]),
+                _ => Op::new("add_s", &[t, rng.below(4) as f64, *rng.pick(&[100.0, 50.0, 100.0, 120.0, -5.0, 44.0, 300.0, 356.0]), *rng.pick(&[0.0, 1.0, 0.0, 1.0, -1.0, 2.0, -2.0, 65538.0, 65536.0, 65535.0])]),
             }
         };
         // one plan in ten is a long history (lists grow beyond any small internal threshold; equal-time adds land on
